@@ -36,6 +36,19 @@ def slot_guard(B, bb):
     """dominating 'slot is empty' condition: (idx canon) for is_some(false edge)/is_none(true edge) on fragments[idx]"""
     out = []
     for (src, vals, dst) in dominating_edges(B, bb):
+        # `match self.fragments[idx] { None => .. }` / `if let None = ..`: the None edge of a discriminant switch
+        sd = B.switch_on_discr(src)
+        if sd and 'Option<' in sd[1]:
+            none_t = [b_ for v_, b_ in sd[2] if v_ == 0]
+            some_t = [b_ for v_, b_ in sd[2] if v_ == 1]
+            is_none_edge = (none_t and dst == none_t[0]) or (not none_t and some_t and dst == sd[3] and dst != some_t[0])
+            if is_none_edge:
+                o = unwrap(B.origin_place(sd[0]))[0]
+                if o is not None and o[0] == 'call' and o[1] and (o[1].endswith('::index') or o[1].endswith('::index_mut')):
+                    it = B.blocks[o[2]]['t']
+                    if 'fragments' in root_fields(B, it['args'][0]):
+                        out.append(canon(B, it['args'][1]))
+            continue
         sb = B.switch_bool_edges(src)
         if not sb or sb[0][0] != 'call':
             continue
